@@ -211,7 +211,7 @@ func init() {
 			"(3) one writer (variable then fixed write) + two readers of the same and of another bucket; (4) a writer adding a new year file to the bucket being read; (5) a request of three rows in one variable interval + a writer of another bucket + a reader; ALL interleavings with <=2 deviations (thorough: 3; thread sets 3 and 5: 1, thorough 2) with scheduling points at every channel/lock/device operation (so a reader can run between the data write and the index write). " +
 			"oracle per execution: no panic, no deadlock, no query error, every row complete (both columns equal) and from an issued write, no variable row more often than written, and no pair of conflicting accesses that is unordered by the happens-before relation of the code's own synchronisation (data race). non-trivial = schedules with >=1 deviation",
 		Assume: []string{"data races: happens-before detection (rt/vrt/hb.go) over reads/writes of struct fields and package-level variables of the instrumented packages on every explored schedule; accesses to slice/map elements and inside third-party packages are not tracked", "UTC"},
-		QuickMax: 8 * time.Minute, ThorMax: 45 * time.Minute,
+		QuickMax: 8 * time.Minute, ThorMax: 30 * time.Minute,
 		Race: &mc.RaceSpec{Scenarios: []string{"mixed", "same-bucket", "new-buckets"}, Quick: 6, Thorough: 60},
 	}, schedEnum(c18Scens, func(c *mc.Ctx, si int) int {
 		switch {
